@@ -74,6 +74,12 @@ def run(ctx):
         width = int(fmt.rstrip("d")[1:])
     sorts = [n for n in own_nodes(load.node) if isinstance(n, ast.Call) and isinstance(n.func, ast.Name) and n.func.id == "sorted"]
     listing = [n for n in own_nodes(load.node) if isinstance(n, ast.Call) and (dotted(n.func) or "") in ("os.listdir", "os.scandir", "glob.glob")]
+    inplace = [
+        n for n in own_nodes(load.node)
+        if isinstance(n, ast.Call) and isinstance(n.func, ast.Attribute) and n.func.attr == "sort" and isinstance(n.func.value, ast.Name)
+    ]
+    if listing and not sorts and inplace:
+        sorts = inplace
     if not listing:
         # reader enumerates frame numbers itself - order is explicit
         chk.ok("R20.a", load.qualname, load.loc(), "reader does not depend on directory listing order")
@@ -139,9 +145,18 @@ def run(ctx):
     if pso is None:
         fors = []
         ok = False
-    elif not (len(fors) == 2 and ast.unparse(fors[0].iter) == "enumerate(schedule.schedule)" and isinstance(fors[0].target, ast.Tuple)):
-        raise AnalysisError("_plot_machine_schedules: machine loop not recognised")
-    mi, ms = (fors[0].target.elts[0].id, fors[0].target.elts[1].id) if fors else (None, None)
+    mi = ms = yvar = None
+    if pso is not None:
+        if len(fors) != 2 or not isinstance(fors[0].target, ast.Tuple) or len(fors[0].target.elts) != 2:
+            raise AnalysisError("_plot_machine_schedules: machine loop not recognised")
+        it0 = ctx.norm.xtext(pms, fors[0].iter).replace(" ", "")
+        t0, t1 = (e.id if isinstance(e, ast.Name) else None for e in fors[0].target.elts)
+        if it0 == "enumerate(schedule.schedule)":
+            mi, ms = t0, t1
+        elif it0.startswith("zip(schedule.schedule,") and ("count(_BASE_Y_POSITION,_Y_POSITION_INCREMENT)" in it0):
+            ms, yvar = t0, t1
+        else:
+            raise AnalysisError(f"_plot_machine_schedules: machine loop over `{it0[:60]}` not recognised")
     if pso is None:
         pass
     elif ast.unparse(fors[1].iter) != ms or not isinstance(fors[1].target, ast.Name):
@@ -174,7 +189,8 @@ def run(ctx):
             else:
                 defs = ctx.flow.defs(pms)
                 yt = ctx.norm.xtext(pms, c.args[2]).replace(" ", "")
-                if mi not in yt or "_Y_POSITION_INCREMENT" not in yt:
+                row_ok = (yvar is not None and yt == yvar) or (mi is not None and mi in yt and "_Y_POSITION_INCREMENT" in yt)
+                if not row_ok:
                     ok = False
                     chk.violation("R20.b", pms, c, f"the bar's row `{yt}` is not derived from the machine index", loc=pms.loc(c))
                 ct = ctx.norm.xtext(pms, c.args[3])
@@ -320,34 +336,33 @@ def run(ctx):
         chk.violation("R20.d", sch, None, "GanttChartCreator.schedule is not the dispatcher's live schedule")
 
     # ---------------------------------------------------------------- R20.e
-    ca = repo.find_function("_configure_axes")
+    ca_raw = repo.find_function("_configure_axes")
+    ca = ctx.norm.flat(ca_raw)
     nodes = list(own_nodes(ca.node))
     src = ast.unparse(ca.node).replace(" ", "")
     oke = True
-    # xlim defaults to the makespan when not given
-    dflt = False
-    for n in nodes:
-        if isinstance(n, ast.Assign) and ast.unparse(n.targets[0]) == "xlim":
-            v = n.value
-            par = ca.module.parents.get(n)
-            if isinstance(v, ast.IfExp):
-                t = ast.unparse(v).replace(" ", "")
-                if t in ("xlimifxlimisnotNoneelsemakespan", "makespanifxlimisNoneelsexlim"):
+    setx = [n for n in nodes if isinstance(n, ast.Call) and ast.unparse(n.func) == "ax.set_xlim" and len(n.args) == 2]
+    if len(setx) != 1 or ast.unparse(setx[0].args[0]) != "0":
+        raise AnalysisError("_configure_axes: set_xlim(0, limit) not found")
+    lim = setx[0].args[1]
+    lt = ctx.norm.xtext(ca, lim).replace(" ", "")
+    dflt = lt in ("xlimifxlimisnotNoneelseschedule.makespan()", "schedule.makespan()ifxlimisNoneelsexlim")
+    if not dflt and isinstance(lim, ast.Name):
+        for n in nodes:
+            if isinstance(n, ast.Assign) and ast.unparse(n.targets[0]) == lim.id:
+                v = ctx.norm.xtext(ca, n.value).replace(" ", "")
+                par = ca.module.parents.get(n)
+                if v in ("xlimifxlimisnotNoneelseschedule.makespan()", "schedule.makespan()ifxlimisNoneelsexlim"):
                     dflt = True
-            elif isinstance(par, ast.If) and ast.unparse(par.test).replace(" ", "") == "xlimisNone" and ast.unparse(v) == "makespan" and not par.orelse:
-                dflt = True
+                elif isinstance(par, ast.If) and ast.unparse(par.test).replace(" ", "") == f"{lim.id}isNone" and v == "schedule.makespan()" and not par.orelse:
+                    dflt = True
     if not dflt:
         oke = False
-        chk.violation("R20.e", ca, None, "the x limit is not `xlim if given else makespan`")
-    if "ax.set_xlim(0,xlim)" not in src:
-        oke = False
-        chk.violation("R20.e", ca, None, "the time axis does not run from 0 to the limit")
-    if "makespan=schedule.makespan()" not in src:
-        oke = False
-        chk.violation("R20.e", ca, None, "the makespan is not taken from the schedule")
-    last_tick = ("xticks[-1]!=xlim" in src and ("xticks.append(xlim)" in src or "xticks[-1]=xlim" in src))
+        chk.violation("R20.e", ca_raw, lim, f"the x limit `{lt[:60]}` is not `xlim if given else the schedule's makespan`", loc=ca.loc(setx[0]))
+    lv = ast.unparse(lim)
+    last_tick = (f"xticks[-1]!={lv}" in src and (f"xticks.append({lv})" in src or f"xticks[-1]={lv}" in src))
     if not last_tick:
         oke = False
-        chk.violation("R20.e", ca, None, "the last tick is not forced to the axis limit")
+        chk.violation("R20.e", ca_raw, None, "the last tick is not forced to the axis limit")
     if oke:
-        chk.ok("R20.e", ca.qualname, ca.loc(), "axis [0, xlim or makespan], last tick at the limit")
+        chk.ok("R20.e", ca_raw.qualname, ca_raw.loc(), "axis [0, xlim or makespan], last tick at the limit")
